@@ -29,7 +29,7 @@ def gen_formats(rng, view):
     r = rng.random()
     d1, d2 = rng.choice(DELIMS), rng.choice(DELIMS)
     s1, s2 = rng.choice(SPECS), rng.choice(SPECS)
-    if view == 'sbs' or r < 0.6:
+    if r < 0.6:
         return '{nm%s}%s' % (s1, d1), '{np%s}%s' % (s2, d2), ['nm'], ['np'], 'std'
     if r < 0.75:
         return '%s{nm%s}%s{np%s}%s' % (d1, s1, d2, s2, d1), '', ['nm', 'np'], [], 'both-left'
@@ -203,13 +203,23 @@ def check_sbs(d, meta, W, out, counters):
                     R.kind = f
             parsed.append((L, R, info.row))
         lines = [(k, t) for k, t in h.lines if k != '\\']
-        for side, kinds, ph in ((0, '- ', 'nm'), (1, '+ ', 'np')):
+        # old / new number of every line of the hunk
+        numbered = []
+        o_, n_ = h.old_start, h.new_start
+        for k, t in lines:
+            numbered.append((k, t, o_ if k in '- ' else None, n_ if k in '+ ' else None))
+            if k in '- ':
+                o_ += 1
+            if k in '+ ':
+                n_ += 1
+        lo_, ro_ = meta['orders']
+        for side, kinds, order in ((0, '- ', lo_), (1, '+ ', ro_)):
             stream = c07.side_stream(parsed, side)
             i = 0
-            num = h.old_start if side == 0 else h.new_start
-            for k, t in lines:
+            for k, t, onum, nnum in numbered:
                 if k not in kinds:
                     continue
+                want_first = [onum if ph_ == 'nm' else nnum for ph_ in order]
                 if i >= len(stream):
                     return 'structure', 'line missing in panel', t, 'end of rows'
                 first = True
@@ -218,7 +228,7 @@ def check_sbs(d, meta, W, out, counters):
                         break
                     idx, p = stream[i]
                     got = [sbs.field_number(x) for _, x in p.fields]
-                    exp = [num] if first else [None]
+                    exp = want_first if first else [None] * len(order)
                     if got != exp:
                         return 'number:sbs:%s:%s' % ('left' if side == 0 else 'right', 'first-row' if first else 'continuation-row'), \
                             'line number shown in the %s panel (%s of a %r line) is wrong' % ('left' if side == 0 else 'right',
@@ -236,7 +246,6 @@ def check_sbs(d, meta, W, out, counters):
                     first = False
                     if p.truncated or not p.has_wrap:
                         break
-                num += 1
     return None
 
 
